@@ -44,6 +44,20 @@ func (g *Gen) Target() *Config {
 	c := &Config{}
 	ngroups := g.Rng.Intn(5)
 	for i := 0; i < ngroups; i++ {
+		if i > 0 && g.Rng.Intn(3) == 0 {
+			// Near copy of an earlier group (one group split in two).
+			o := c.Groups[g.Rng.Intn(len(c.Groups))].Expression[0].IPAddresses
+			l := append([]string{}, o...)
+			if len(l) > 1 && g.Rng.Intn(2) == 0 {
+				k := g.Rng.Intn(len(l))
+				l = append(l[:k:k], l[k+1:]...)
+			} else {
+				l = append(l, g.addr())
+				sort.Strings(l)
+			}
+			c.Groups = append(c.Groups, newGroup(fmt.Sprintf("Netspoc-g%d", i), l))
+			continue
+		}
 		c.Groups = append(c.Groups, newGroup(fmt.Sprintf("Netspoc-g%d", i), g.addrs(1+g.Rng.Intn(6))))
 	}
 	nsvc := g.Rng.Intn(4)
@@ -190,7 +204,15 @@ func (g *Gen) Device(t *Config, nedits int) (*Store, []string) {
 			}
 		case 4: // merge: two groups on target, one on device
 			if len(s.Groups) > 1 {
-				a, b := s.Groups[0], s.Groups[1]
+				i := g.Rng.Intn(len(s.Groups))
+				j := g.Rng.Intn(len(s.Groups) - 1)
+				if j >= i {
+					j++
+				}
+				a, b := s.Groups[i], s.Groups[j]
+				if g.Rng.Intn(2) == 0 {
+					a.Expression[0].IPAddresses = append([]string{}, b.Expression[0].IPAddresses...)
+				}
 				rename(b.Id, a.Id)
 				s.Groups = removeIf(s.Groups, func(x *Group) bool { return x == b })
 				ops = append(ops, "groups-merged")
